@@ -362,4 +362,42 @@ Lemma expr_adjoint_sound_flat (e : oexpr) : wf leaf_ok e ->
      cinner (ran e) (eval e x) y = cinner (dom e) x (eval (adjoint e) y)) /\
   dom (adjoint e) = ran e /\ ran (adjoint e) = dom e.
 Proof. intros Hw. destruct (expr_adjoint_sound_all e Hw) as ((H1 & H2 & H3) & H4). auto. Qed.
+
+(* ---- A.adjoint.adjoint acts like A: uniqueness of the adjoint ---- *)
+Definition invertible (w : vec) : Prop := Forall (fun c => exists c', c' * c = none_) w.
+
+Lemma cinner_cons c a b (w u y : vec) : cinner (c :: w) (a :: u) (b :: y) = c * (a * nconj b) + cinner w u y.
+Proof. reflexivity. Qed.
+Lemma cinner_sep (w u v : vec) : invertible w -> length u = length w -> length v = length w ->
+  (forall y, length y = length w -> cinner w u y = cinner w v y) -> u = v.
+Proof.
+  intros Hinv; revert u v; induction Hinv as [|c w (c' & Hc) _ IH]; intros u v Hu Hv Hy.
+  - destruct u, v; try discriminate; reflexivity.
+  - destruct u as [|a u], v as [|b v]; try discriminate. cbn in Hu, Hv. f_equal.
+    + specialize (Hy (none_ :: zeros (length w))). cbn [length] in Hy. rewrite zeros_len in Hy.
+      specialize (Hy eq_refl). rewrite !cinner_cons, !(cinner_zeros_r OK), (ck_conj_one T OK) in Hy.
+      transitivity (c' * c * a); [rewrite Hc; ring|]. transitivity (c' * c * b); [|rewrite Hc; ring].
+      transitivity (c' * (c * (a * none_) + nzero)); [ring|]. rewrite Hy. ring.
+    + apply IH; [lia | lia |]. intros y Hl. specialize (Hy (nzero :: y)). cbn [length] in Hy.
+      specialize (Hy (f_equal S Hl)). rewrite !cinner_cons, (ck_conj_zero T OK) in Hy.
+      transitivity (c * (a * nzero) + cinner w u y); [ring|]. rewrite Hy. ring.
+Qed.
+Lemma adjoint_unique (wd wr : vec) A B C : vconj wd = wd -> vconj wr = wr -> invertible wr ->
+  adj_pair wd wr A B -> adj_pair wr wd B C -> forall x, length x = length wd -> C x = A x.
+Proof.
+  intros Hd Hr Hinv (A1 & A2 & A3) (B1 & B2 & B3) x Hx.
+  apply (cinner_sep wr); [assumption | apply B2; assumption | apply A1; assumption |].
+  intros y Hy. rewrite A3 by assumption.
+  rewrite <- (cinner_conj_sym wr y (C x) Hr), <- B3 by assumption.
+  apply cinner_conj_sym; assumption.
+Qed.
+Theorem double_adjoint_all (e : oexpr) : wf leaf_ok e -> wf leaf_ok (adjoint e) ->
+  vconj (dom e) = dom e -> vconj (ran e) = ran e -> invertible (ran e) ->
+  forall x, length x = length (dom e) -> eval (adjoint (adjoint e)) x = eval e x.
+Proof.
+  intros W1 W2 Hd Hr Hinv.
+  destruct (expr_adjoint_sound_all e W1) as (P1 & D1 & R1).
+  destruct (expr_adjoint_sound_all (adjoint e) W2) as (P2 & _ & _).
+  rewrite D1, R1 in P2. exact (adjoint_unique _ _ _ _ _ Hd Hr Hinv P1 P2).
+Qed.
 End Tree.
